@@ -73,9 +73,15 @@ func init() {
 		if fc.pureMode {
 			fc.unsup("strings.Split in a specification")
 		}
-		nf, atf, ok := fc.splitFns(sep)
+		var nf, atf string
+		ok := false
+		if fc.splitSpec {
+			// the axiomatic model is only brought in for functions whose contracts talk about the parts
+			// (splitCount / splitPart); elsewhere the result is an unconstrained fresh slice
+			nf, atf, ok = fc.splitFns(sep)
+		}
 		if !ok {
-			fc.usedLib("strings.Split with a non-literal or multi-byte separator: fresh slice, nothing known")
+			fc.usedLib("strings.Split: fresh slice, nothing known about the parts (no contract of this function mentions splitCount/splitPart, or the separator is not a one-byte literal)")
 			n := tb.Fresh("splitn", "Int")
 			fc.assume(st, tb.Ge(n, tb.Int(0)))
 			return fc.freshStrSlice(st, n, nil, "split")
